@@ -236,15 +236,32 @@ def strip(e):
     return e
 
 
-def forwards_to_std(F, body, fl, std):
-    """body is `<fl>::std(*self, p1, p2 ...)` with the parameters in declaration order"""
+def forwards_to_std(F, body, fl, std, depth=0):
+    """body is `<fl>::std(*self, p1, p2 ...)` with the parameters in declaration order (possibly through another item of the
+    same plain-float impl that itself forwards to that std function)"""
     e = strip(body["body"])
     from ..hirpp import expr_s
     found = expr_s(e)
-    if e["k"] != "call":
+    if e["k"] not in ("call", "mcall"):
         return False, found
     c = walk.callee_of(e)
-    if not c or c.get("local"):
+    if not c:
+        return False, found
+    inst = c.get("inst") or {}
+    if (c.get("local") or inst.get("local")) and depth < 2:
+        # a call of another DualNum item of the same float type with the arguments in order
+        tgt = F.bodies.get(inst.get("did") or c.get("did"))
+        args = ([e["recv"]] + e["args"]) if e["k"] == "mcall" else e["args"]
+        ids = [p.get("id") for p in body["params"]]
+        ok_args = len(args) == len(ids)
+        for a, pid in zip(args, ids):
+            while a["k"] in ("un", "addr") and (a["k"] == "addr" or a["op"] == "deref"):
+                a = a["a"]
+            ok_args = ok_args and a["k"] == "path" and a["res"].get("r") == "local" and a["res"].get("id") == pid
+        if tgt is not None and ok_args and tgt.get("_impl") is body.get("_impl"):
+            return forwards_to_std(F, tgt, fl, std, depth + 1)
+        return False, found
+    if e["k"] != "call" or c.get("local"):
         return False, found
     path = c.get("path", "")
     if not (path.endswith("::" + std) and (("<impl %s>" % fl) in path or path.startswith(fl + "::") or ("::" + fl + "::") in path or ("f%s" % fl[1:]) in path)):
